@@ -17,7 +17,8 @@ EXPLANATION = (
     "the incoming flow is not used at all and the loader takes no upstream object, reads P, yields in file order "
     "and stops only on EOFError; (d) the string-named loader exists and alter_sequence builds the Source from the "
     "last filled Cache and only the elements after it; (e) cache_exists is False whenever recompute is set and "
-    "drop_cache removes P.  Trusts pickle round-trip equality and atomicity of rename within a directory.")
+    "drop_cache attempts to remove P on every path (a path may leave without it only after a test of the file "
+    "itself found it absent -- not through cache_exists(), which pretends absence under recompute).  Trusts pickle round-trip equality and atomicity of rename within a directory.")
 RULES = {
     "C18-a": "PUBLISH: the final cache name appears only after the flow loop terminated normally",
     "C18-b": "order: each value is dumped before it is yielded",
@@ -385,6 +386,25 @@ def check_exists_drop(ctx):
     rp = reader_path_exprs(ctx).get("_load_flow")
     ctx.check("C18-e", len(rm) >= 1 and all(A.src(c.args[0]) == rp for c in rm), dc, "drop_cache does not remove `%s`" % rp,
               detail="drop_cache removes %s" % rp, construct="drop")
+    # the removal is attempted on every path: cache_exists() pretends absence under recompute, so it must not decide
+    # whether the file is removed (a dropped cache that stays on disk is replayed by the next ordinary Cache)
+    n_dp = 0
+    for p in P.paths_of(dc):
+        attempted = any(e[0] in ("stmt", "partial") and any(c in rm for c in A.walk_local(e[1]) if isinstance(c, ast.Call)) for e in p.ev)
+        n_dp += 1
+        if attempted:
+            ctx.ok("C18-e", dc, "drop_cache attempts the removal on path [%s]" % p.describe(3))
+            continue
+        absent = False
+        for t, pol in p.literals():
+            if isinstance(t, ast.Call) and res.canon(t.func) in ("os.path.exists", "os.path.isfile", "os.access", "os.path.lexists") \
+                    and t.args and A.src(t.args[0]) == rp and pol is False:
+                absent = True
+        ctx.check("C18-e", absent, dc, "drop_cache leaves without trying to remove `%s` on the path [%s]: the decision depends on "
+                  "cache_exists()/_recompute, which pretends that the cache is absent when recompute is set, so the file of a "
+                  "recomputing Cache survives drop_cache() and is replayed by the next run" % (rp, p.describe(4)),
+                  detail="no removal only when the file itself was found absent", construct="drop-skipped", path=p)
+    ctx.instances_floor("C18-e/drop", n_dp, 2, "paths of drop_cache")
     # _recompute is written only in __init__
     cls = ctx.tree.cls(MOD, "Cache")
     for name, m in methods(cls).items():
@@ -410,6 +430,8 @@ _OLD_WRITER = '''        with open(self._filename, "wb") as f:
 '''
 
 VARIANTS = [
+    M("drop-guarded-by-cache-exists", "lena/flow/cache.py", "        try:\n            os.remove(self._filename)\n        except OSError as err:", "        if not self.cache_exists():\n            return\n        try:\n            os.remove(self._filename)\n        except OSError as err:", ["C18-e"]),
+    TW("drop-guarded-by-file-test", "lena/flow/cache.py", "        try:\n            os.remove(self._filename)\n        except OSError as err:", "        if not os.path.exists(self._filename):\n            return\n        try:\n            os.remove(self._filename)\n        except OSError as err:"),
     V("mutant", "revert-fix-open-final-name", None, None, None, ["C18-a"], edits=[
         ("lena/flow/cache.py", 'with open(tmp_filename, "wb") as f:', 'with open(self._filename, "wb") as f:', 0),
         ("lena/flow/cache.py", "        os.rename(tmp_filename, self._filename)\n", "", 0)]),
